@@ -196,7 +196,14 @@ void parallel_for(size_t n, int workers, const std::string& dir, const std::stri
             for (size_t i = start; i < n; i += workers) {
                 slots[w] = i + 1;
                 note("");
-                fn(i, out);
+                // an item's output reaches the file only when the item has completed, so a crash never leaves a torn line
+                char* mbuf = nullptr; size_t mlen = 0;
+                FILE* mem = open_memstream(&mbuf, &mlen);
+                fn(i, mem);
+                fclose(mem);
+                if (mlen) fwrite(mbuf, 1, mlen, out);
+                fflush(out);
+                free(mbuf);
             }
             slots[w] = 0;
             fclose(out);
